@@ -37,6 +37,8 @@ mod debug;
 pub mod input;
 mod parser;
 mod scanner;
+#[cfg(saphyr_verif)]
+pub mod verif_hooks;
 
 pub use crate::input::{str::StrInput, BufferedInput, Input};
 pub use crate::parser::{Event, EventReceiver, Parser, SpannedEventReceiver, Tag};
